@@ -10,7 +10,7 @@ INF = 1000000
 GLOBAL_SETTINGS = ["ignore_errors", "args_override_self", "dont_delimit_trailing_values", "infer_long_args",
                    "infer_subcommands", "disable_help_flag", "disable_version_flag", "disable_help_subcommand",
                    "propagate_version"]
-LOCAL_SETTINGS = ["arg_required_else_help", "allow_missing_positional", "subcommand_required",
+LOCAL_SETTINGS = ["next_line_help", "arg_required_else_help", "allow_missing_positional", "subcommand_required",
                   "allow_external_subcommands", "args_conflicts_with_subcommands",
                   "subcommand_precedence_over_arg", "subcommand_negates_reqs"]
 SETTINGS = GLOBAL_SETTINGS + LOCAL_SETTINGS
@@ -26,7 +26,7 @@ def arg(id, short=None, long=None, aliases=(), action="", num=None, required=Fal
         tva=False, hyphen=False, negnum=False, req_eq=False, delim=None, term=None, defaults=(), missing=(),
         default_ifs=(), env=None, exclusive=False, conflicts=(), overrides=(), requires=(), requires_ifs=(),
         req_if_eq=(), req_if_eq_all=(), req_unless=(), req_unless_all=(), ignore_case=False, vp=None, index=0,
-        hide=False):
+        hide=False, hide_short=False, hide_long=False, nlh=False, help=None, hide_pv=False, disp=-1):
     """num: None (unset) or (min, max) with max None = unbounded."""
     a = {
         "id": id, "idb": b(id), "short": b(short) if short else [], "long": b(long) if long else [],
@@ -44,17 +44,21 @@ def arg(id, short=None, long=None, aliases=(), action="", num=None, required=Fal
         "req_if_eq_all": [{"id": i, "val": b(v)} for (i, v) in req_if_eq_all],
         "req_unless": list(req_unless), "req_unless_all": list(req_unless_all),
         "ignore_case": ignore_case, "index": index, "hide": hide,
-        "vp": vp or {"k": "string", "lo": 0, "hi": 0, "pvs": []},
+        "hide_short": hide_short, "hide_long": hide_long, "nlh": nlh, "help": b(help) if help else [], "hide_pv": hide_pv, "disp": disp,
+        "vp": dict(vp) if vp else {"k": "string", "lo": 0, "hi": 0, "pvs": []},
     }
+    a["vp"].setdefault("pv_hide", [False] * len(a["vp"]["pvs"]))
+    a["vp"].setdefault("pv_help", [[] for _ in a["vp"]["pvs"]])
     return a
 
 
 def vp_int(lo, hi):
-    return {"k": "int", "lo": lo, "hi": hi, "pvs": []}
+    return {"k": "int", "lo": lo, "hi": hi, "pvs": [], "pv_hide": [], "pv_help": []}
 
 
-def vp_possible(*names):
-    return {"k": "possible", "lo": 0, "hi": 0, "pvs": [b(n) for n in names]}
+def vp_possible(*names, hide=(), helps=None):
+    return {"k": "possible", "lo": 0, "hi": 0, "pvs": [b(n) for n in names], "pv_hide": [n in hide for n in names],
+            "pv_help": [b((helps or {}).get(n, "")) for n in names]}
 
 
 def group(id, args, required=False, multiple=False, requires=(), conflicts=()):
@@ -63,7 +67,7 @@ def group(id, args, required=False, multiple=False, requires=(), conflicts=()):
 
 
 def cmd(name, args=(), groups=(), subs=(), aliases=(), short_flag=None, long_flag=None, version=False,
-        long_flag_aliases=(), short_flag_aliases=(), **settings):
+        long_flag_aliases=(), short_flag_aliases=(), hide=False, about=None, **settings):
     s = {k: False for k in SETTINGS}
     for k, v in settings.items():
         assert k in s, k
@@ -71,6 +75,7 @@ def cmd(name, args=(), groups=(), subs=(), aliases=(), short_flag=None, long_fla
     return {"name": b(name), "aliases": [b(x) for x in aliases], "short_flag": b(short_flag) if short_flag else [],
             "long_flag": b(long_flag) if long_flag else [], "long_flag_aliases": [b(x) for x in long_flag_aliases],
             "short_flag_aliases": [b(x) for x in short_flag_aliases], "version": version, "s": s,
+            "hide": hide, "about": b(about) if about else [],
             "args": list(args), "groups": list(groups), "subs": list(subs)}
 
 
@@ -279,6 +284,13 @@ def f_act():
                                 "%s/multi-values/override_self" % action, with_noise=False))
             a = arg("a", "a", "aa", action=action, num=(0, 1), missing=["m"])
             D.append(with_alpha(cmd("p", [a, arg("p1")]), "act", "%s/optional-value" % action, with_noise=False))
+    # occurrences with zero values must keep their boundaries
+    D.append(with_alpha(cmd("p", [arg("a", "a", "aa", action="Append", num=(0, None)), arg("f", "f", action="SetTrue")]), "act",
+                        "Append/zero-or-more-no-missing", with_noise=False))
+    D.append(with_alpha(cmd("p", [arg("a", "a", "aa", action="Append", num=(0, 1)), arg("p1")]), "act", "Append/optional-no-missing", with_noise=False))
+    # two one-way overriders of the same target
+    D.append(with_alpha(cmd("p", [arg("a", "a", "aa", action="SetTrue", overrides=["c"]), arg("b", "b", "bb", action="SetTrue", overrides=["c"]),
+                                  arg("c", "c", "cc", action="SetTrue")]), "act", "two-overriders-of-c", with_noise=False))
     # positional with Append (default for unbounded positional) and explicit Set
     D.append(with_alpha(cmd("p", [arg("p1", num=(0, None)), arg("o", "o", action="Append")]), "act", "pos-append", with_noise=False))
     return D
@@ -399,6 +411,34 @@ def f_rel(k_edges=2, sample=None, seed=1):
 
 
 # ---------------------------------------------------------------- F-tree
+def f_relx():
+    """curated relation definitions whose triggers need values / several occurrences"""
+    D = []
+
+    def add(label, c, **kw):
+        D.append(with_alpha(c, "relx", label, with_noise=False, **kw))
+    add("required_if_eq on Append trigger", cmd("p", [arg("m", "m", "mode", action="Append"), arg("x", "x", "xx", req_if_eq=[("m", "special")])]),
+        extra=["special", "other", "--mode=special", "--mode=other"], values=())
+    add("requires_if on Append trigger", cmd("p", [arg("m", "m", "mode", action="Append", requires_ifs=[("special", "x")]), arg("x", "x", "xx", action="SetTrue")]),
+        extra=["--mode=special", "--mode=other"], values=())
+    add("required_if_eq any+all on one arg", cmd("p", [arg("a", "a", "aa"), arg("b", "b", "bb"), arg("c", "c", "cc"),
+                                                       arg("x", "x", "xx", action="SetTrue", req_if_eq=[("a", "k")], req_if_eq_all=[("b", "k"), ("c", "k")])]),
+        extra=["--aa=k", "--bb=k", "--cc=k", "--aa=z", "--bb=z"], values=())
+    add("required_if_eq ignore_case", cmd("p", [arg("m", "m", "mode", ignore_case=True), arg("x", "x", "xx", action="SetTrue", req_if_eq=[("m", "special")])]),
+        extra=["--mode=SPECIAL", "--mode=special", "--mode=other"], values=())
+    add("required_unless all/any", cmd("p", [arg("a", "a", action="SetTrue"), arg("b", "b", action="SetTrue"),
+                                             arg("x", "x", action="SetTrue", req_unless_all=["a", "b"]), arg("y", "y", action="SetTrue", req_unless=["a", "b"])]), values=())
+    add("group requires + conflicts via env", cmd("p", [arg("a", "a", "aa", env="e"), arg("b", "b", "bb", action="SetTrue"), arg("c", "c", "cc", action="SetTrue", conflicts=["g"]),
+                                                        arg("d", "d", action="SetTrue")],
+                                                  groups=[group("g", ["a"], requires=["b"])]), values=())
+    add("transitive requires", cmd("p", [arg("a", "a", action="SetTrue", requires=["b"]), arg("b", "b", action="SetTrue", requires=["c"]),
+                                         arg("c", "c", action="SetTrue")]), values=())
+    add("exclusive + required", cmd("p", [arg("e", "e", action="SetTrue", exclusive=True), arg("r", "r", required=True), arg("f", "f", action="SetTrue")]), values=("v",))
+    add("nested groups", cmd("p", [arg("a", "a", action="SetTrue"), arg("b", "b", action="SetTrue"), arg("c", "c", action="SetTrue")],
+                             groups=[group("inner", ["a", "b"]), group("outer", ["inner", "c"], required=True)]), values=())
+    return D
+
+
 def f_tree():
     D = []
 
@@ -486,7 +526,7 @@ def set_env_names(defs):
     return defs
 
 
-FAMILIES = {"core": f_core, "act": f_act, "src": f_src, "tree": f_tree}
+FAMILIES = {"core": f_core, "act": f_act, "src": f_src, "tree": f_tree, "relx": f_relx}
 
 
 def write(defs, path):
@@ -652,3 +692,86 @@ def f_hist():
 
 
 FAMILIES["hist"] = f_hist
+
+
+# ---------------------------------------------------------------- F-help (C12)
+def help_shapes(i, attrs):
+    """argument shapes with sentinel names; i makes them unique"""
+    sh = "abcdefg"[i]
+    lg = "zql%dx" % i
+    idn = "zqa%d" % i
+    hw = "hw%da hw%db hw%dc hw%dd hw%de" % (i, i, i, i, i)
+    S = [
+        lambda: arg(idn, sh, None, action="SetTrue", help=hw, **attrs),
+        lambda: arg(idn, None, lg, action="SetTrue", help=hw, **attrs),
+        lambda: arg(idn, sh, lg, action="SetTrue", help=hw, **attrs),
+        lambda: arg(idn, sh, None, action="Count", help=hw, **attrs),
+        lambda: arg(idn, None, lg, action="Count", help=hw, **attrs),
+        lambda: arg(idn, sh, None, help=hw, **attrs),
+        lambda: arg(idn, None, lg, help=hw, **attrs),
+        lambda: arg(idn, sh, lg, help=hw, **attrs),
+        lambda: arg(idn, sh, lg, num=(0, 1), help=hw, **attrs),
+        lambda: arg(idn, None, lg, req_eq=True, num=(0, 1), help=hw, **attrs),
+        lambda: arg(idn, sh, lg, num=(1, None), help=hw, **attrs),
+        lambda: arg(idn, help=hw, **attrs),
+        lambda: arg(idn, num=(0, None), help=hw, **attrs),
+        lambda: arg(idn, sh, lg, vp=vp_possible("pva%d" % i, "pvhid%d" % i, "pvc%d" % i, hide=("pvhid%d" % i,), helps={"pva%d" % i: "pvhelp%d" % i}), help=hw, **attrs),
+        lambda: arg(idn, required=True, help=hw, **attrs),
+        lambda: arg(idn, sh, None, action="Count", **attrs),
+    ]
+    return S
+
+
+def f_help(seed=1, triples=250):
+    rnd = random.Random(seed)
+    D = []
+    nshapes = 16
+    attr_choices = [{}, {}, {}, {"hide": True}, {"hide_short": True}, {"hide_long": True}, {"nlh": True}]
+
+    def mk(shapes, label, settings=None, subs=()):
+        args = []
+        positional_multi_seen = False
+        for pos, k in enumerate(shapes):
+            attrs = rnd.choice(attr_choices)
+            a = help_shapes(pos, attrs)[k]()
+            if not (a["short"] or a["long"]):
+                if positional_multi_seen:
+                    continue   # a positional after a multi-value positional is rejected by the gate
+                if a["nset"] and a["nmax"] >= INF:
+                    positional_multi_seen = True
+            args.append(a)
+        # required positionals first (gate), keep relative order otherwise
+        args.sort(key=lambda a: 0 if (not (a["short"] or a["long"]) and a["required"]) else 1)
+        c = cmd("prog", args, subs=list(subs), **(settings or {}))
+        d = {"fam": "help", "label": label, "cmd": c, "alphabet": [], "env": {}}
+        D.append(d)
+    for k in range(nshapes):
+        mk([k], "single/%d" % k)
+    for a_ in range(nshapes):
+        for b_ in range(nshapes):
+            mk([a_, b_], "pair/%d-%d" % (a_, b_), {"next_line_help": True} if (a_ * nshapes + b_) % 11 == 0 else None)
+    for t in range(triples):
+        ks = [rnd.randrange(nshapes) for _ in range(3)]
+        mk(ks, "triple/%s" % "-".join(map(str, ks)))
+    # trees: hidden subcommands, flag subcommands, nested
+    leafv = cmd("zsleaf", [arg("zqa5", "f", "zql5x", action="SetTrue", help="hw5a hw5b")], about="about leaf")
+    hid = cmd("zshidden", [arg("zqa6", "g", "zql6x", help="hw6a")], hide=True, about="hidden about")
+    mid = cmd("zsmid", [arg("zqa4", "e", "zql4x", action="Count", help="hw4a hw4b"), arg("zqa3", help="hw3a", hide=True)],
+              subs=[leafv, hid], short_flag="M", long_flag="zsmidflag", about="about mid mid mid")
+    for k in (0, 3, 7, 13):
+        mk([k, (k + 5) % nshapes], "tree/%d" % k, subs=[mid, leafv, hid])
+    # equal display order with shorts that differ only by case; every possible value hidden (one with help)
+    for (s1, s2) in (("c", "C"), ("v", "V"), ("x", "y")):
+        c = cmd("prog", [arg("zqa0", s1, "zql0x", action="SetTrue", help="hw0a hw0b", disp=7), arg("zqa1", s2, "zql1x", action="SetTrue", help="hw1a", disp=7),
+                         arg("zqa2", s2.lower() if s2.lower() != s1 else "k", None, help="hw2a", disp=7) if False else arg("zqa2", "k", None, help="hw2a", disp=7)],
+                version=(s2 == "V" and False))
+        D.append({"fam": "help", "label": "same-order/%s%s" % (s1, s2), "cmd": c, "alphabet": [], "env": {}})
+    c = cmd("prog", [arg("zqa0", "v", "zql0x", action="SetTrue", help="hw0a", disp=999)], version=True)
+    D.append({"fam": "help", "label": "same-order/builtin-V", "cmd": c, "alphabet": [], "env": {}})
+    c = cmd("prog", [arg("zqa0", "m", "zql0x", help="hw0a hw0b", vp=vp_possible("pvhid0", "pvhid1", hide=("pvhid0", "pvhid1"), helps={"pvhid0": "secret"})),
+                     arg("zqa1", "n", "zql1x", action="SetTrue", help="hw1a")])
+    D.append({"fam": "help", "label": "all-possible-values-hidden", "cmd": c, "alphabet": [], "env": {}})
+    return D
+
+
+FAMILIES["help"] = f_help
